@@ -288,6 +288,73 @@ func runC05(c *Ctx) {
 	// ---- R5 ----
 	c.c05Errors(headerSites, bodySites)
 
+	// ---- R5 (continued): a failed read ends the reading of that stream — it is never retried ----
+	// After ReadMessage failed, an unknown number of bytes of the current message have been consumed; reading
+	// again starts in the middle of a message and attributes its bytes to another one. In every library function
+	// that calls into the read path (directly or through a helper), no path leads from the error edge of such a
+	// call back to such a call.
+	{
+		rm := c.P.Func("diam", "ReadMessage")
+		memo := map[*ssa.Function]bool{}
+		reads := func(g *ssa.Function) bool {
+			if g == nil {
+				return false
+			}
+			if v, ok := memo[g]; ok {
+				return v
+			}
+			v := g == rm || c.reachesFunc(g, rm, map[*ssa.Function]bool{})
+			memo[g] = v
+			return v
+		}
+		n := 0
+		for _, f := range c.P.LibraryFuncs() {
+			if pkgOf(f).Path() != pkgDiam || rp[f] {
+				continue
+			}
+			var calls []*ssa.Call
+			for _, ci := range flow.CallInstrs(f) {
+				if call, ok := ci.(*ssa.Call); ok && reads(flow.StaticCallee(call)) && errorResult(call) != nil {
+					calls = append(calls, call)
+				}
+			}
+			if len(calls) == 0 {
+				continue
+			}
+			isRead := func(in ssa.Instruction) bool {
+				for _, x := range calls {
+					if ssa.Instruction(x) == in {
+						return true
+					}
+				}
+				return false
+			}
+			for _, call := range calls {
+				n++
+				key := fmt.Sprintf("%s:no-retry-after-%s-error", fname(f), calleeLabel(call))
+				var w []ssa.Instruction
+				for b := range errorEdgeBlocks(call) {
+					if isRead(b.Instrs[0]) {
+						w = []ssa.Instruction{b.Instrs[0]}
+						break
+					}
+					if p := flow.PathAvoiding(f, b.Instrs[0], isRead, nil); p != nil {
+						w = p
+						break
+					}
+				}
+				if w != nil {
+					r.Fail("R5", key, c.pos(call), "after a failed read the same stream is read again: the next read starts in the middle of the interrupted message and its bytes are attributed to another message", c.witness(w)...)
+				} else {
+					r.Ok("R5", key, c.pos(call), "no path from the read's error edge back to a read")
+				}
+			}
+		}
+		if n == 0 {
+			r.Undecided("R5", "role:read-callers", "-", "no library function calls the read path and tests its error")
+		}
+	}
+
 	// ---- R6 ----
 	nStores := 0
 	for f := range rp {
